@@ -142,7 +142,9 @@ class ElectionProfile:
             else:
                 profile.nBallots += multiplier
                 ranking = [rank[0] for rank in ranking] # possibly empty
-                self.ranking = array.array('B' if profile.nCand <= 256 else 'H', ranking)
+                #  typecode by largest candidate ID: 'B' holds 0..255, 'H' 0..65535
+                typecode = 'B' if profile.nCand < 256 else 'H' if profile.nCand < 65536 else 'L'
+                self.ranking = array.array(typecode, ranking)
 
     def __validate(self):
         "check profile for internal consistency"
